@@ -123,7 +123,15 @@ def run(ctx: Ctx) -> None:
                 trace = []
                 ok = True
                 transformed = False
+                def record(p_) -> Dict[str, Any]:
+                    d_ = p_.__dict__
+                    return {"tagged": bool(has_parameter_data(p_)), "hooked": "__deepcopy__" in d_ and "__reduce_ex__" in d_,
+                            "is_param": isinstance(p_, nn.Parameter), "dtype": str(p_.dtype),
+                            "requires_grad": bool(p_.requires_grad), "depth": getattr(p_, "mup_scaling_depth", "missing"),
+                            "type": getattr(p_, "mup_type", "missing")}
+
                 for i, op in enumerate(hist):
+                    src, src_rec = h, record(h.p)
                     try:
                         h = apply(op, h, i)
                     except Exception as e:  # noqa
@@ -137,6 +145,16 @@ def run(ctx: Ctx) -> None:
                             ctx.violation(f"C09:op:{op}:{type(e).__name__}", f"operation raised {type(e).__name__}: {str(e)[:120]}",
                                           {**key, "step": i})
                         break
+                    if h is not src:
+                        # the operation produced a new object: the one it was applied to is still the same parameter
+                        # (it may be copied, pickled or transformed again later)
+                        after_rec = record(src.p)
+                        if after_rec != src_rec:
+                            cp = copy.deepcopy(src.p)
+                            ctx.violation("C09:source-damaged", f"{op} changed the parameter it was applied to: "
+                                          f"{ {k: (src_rec[k], after_rec[k]) for k in src_rec if src_rec[k] != after_rec[k]} }; a later "
+                                          f"deepcopy of it is {'still' if has_parameter_data(cp) else 'no longer'} tagged",
+                                          {**key, "step": i})
                     if op == "applyTransform":
                         transformed = True
                     elif op in ("deepcopyParam", "pickleParam", "saveLoadParam"):
